@@ -804,6 +804,9 @@ Definition do_drop_mux (f : eff) : eff * list N :=
   if negb (e_mux_alive e) then (f, R_NA) else
   let suspended_on_accept :=
     running (e_phase e) && match e_blocked e with BlStream _ => true | _ => false end in
+  let mark_futs (e : ep) : ep :=
+    let e := set_opens e (map (fun o => mkOpen (op_host o) (op_port o) (op_retries o) (op_state o) false true) (e_opens e)) in
+    set_binds e (map (fun b => mkBindp (bp_state b) false true) (e_binds e)) in
   let mark (e : ep) : ep :=
     let e := set_opens e (map (fun o => mkOpen (op_host o) (op_port o) (op_retries o) (op_state o) false true) (e_opens e)) in
     let e := set_binds e (map (fun b => mkBindp (bp_state b) false true) (e_binds e)) in
@@ -829,6 +832,9 @@ Definition do_drop_mux (f : eff) : eff * list N :=
         (source_event (mkEff (set_phase e Running) [] (f_wakes f) (f_closed f) (f_done f)) c, [0])
     | _, _ =>
         let f := if running (e_phase e) then drop_blocked f else f in
+        (* the pending calls are gone before the task sees anything of the drop: a request that the
+           closing of an unclaimed stream resolves (its id re-used by a pending Connect or Bind) wakes nobody *)
+        let f := with_ep f (mark_futs (f_ep f)) in
         let f := fold_left drop_unclaimed (e_opens e) f in
         let f := with_ep f (mark (f_ep f)) in
         if running (e_phase (f_ep f)) then (wind_down f 0 true false true, [0]) else (f, [0])
